@@ -20,6 +20,13 @@ def run(ctx):
             items = P.gen_items(fam, rng, n)
             setref = sorted(rng.sample(range(3, n - 1), 1)) if batch and i % 2 == 0 else ()
             ts.append(P.clean_slate(fam, p, items, rng.randrange(10 ** 6), setref))
+    # the caller follows the docstrings and calls reset() itself after every reported drift; KdqTreeBatch also without an initial set_reference
+    for fam in ("DDM", "EDDM", "STEPD", "PageHinkley", "KdqTreeStreaming", "KdqTreeBatch", "HDDDM", "CDBD", "NNDVI"):
+        batch = P.families()[fam]["kind"] == "batch"
+        for i in range(2 if q else 12):
+            p = P.default_params(fam, rng)
+            n = rng.randint(10, 14) if batch else (rng.randint(200, 350) if fam != "KdqTreeStreaming" else rng.randint(120, 200))
+            ts.append(P.clean_slate(fam, p, P.gen_items(fam, rng, n), rng.randrange(10 ** 6), (), user_reset=True, no_initial_ref=(i % 2 == 0)))
     # set_reference in the middle of a quiet epoch (no drift pending): still a clean slate
     for fam in ("KdqTreeBatch", "HDDDM", "CDBD", "NNDVI"):
         for i in range(3 if q else 15):
@@ -38,7 +45,8 @@ def run(ctx):
         d["epochs"] += sum(1 for e in t["ev"] if e["fresh"])
     ctx.parts["families"] = fams
     ctx.validate("Product", ts, "whole-history run vs fresh real twins per epoch (10 families)", sabotage=P.sabotage,
-                 replay=lambda i: {"fam": ts[i]["fam"], "params": ts[i]["params"], "items": ts[i]["items"], "seed": ts[i]["seed"], "setref_at": ts[i]["setref_at"]},
+                 replay=lambda i: {"fam": ts[i]["fam"], "params": ts[i]["params"], "items": ts[i]["items"], "seed": ts[i]["seed"], "setref_at": ts[i]["setref_at"],
+                                   "user_reset": ts[i]["user_reset"], "no_initial_ref": ts[i]["no_initial_ref"]},
                  nontrivial=lambda t: sum(1 for e in t["ev"] if e["fresh"]) >= 2)
     ctx.assumptions += ["identical numpy seed immediately before step t in both runs", "CUSUM's twin receives the documented carry-over (mean / population "
                         "deviation of the last burn_in observations) as constructor arguments; batch twins receive the drifted batch as reference",
@@ -48,6 +56,6 @@ def run(ctx):
 
 def replay(ctx, bundle):
     r = bundle["replay"]
-    t = P.clean_slate(r["fam"], r["params"], r["items"], r["seed"], tuple(r["setref_at"]))
+    t = P.clean_slate(r["fam"], r["params"], r["items"], r["seed"], tuple(r["setref_at"]), r.get("user_reset", False), r.get("no_initial_ref", False))
     ctx.validate("Product", [t], "replay", replay=lambda i: r)
     return ctx.finish()
